@@ -379,6 +379,21 @@ def c13_stage(seed, tier, stats):
         scen.append({"id": "C13c-free%d" % k, "mode": "free", "world": "sim", "prog": prog, "nreaders": 3, "readsEach": 100,
                      "withCloser": False, "withStable": False, "segSize": rng.choice([60, 80]), "sched": [], "seed": seed * 77 + k,
                      "preload": rng.randint(0, 4), "closeAfter": 0})
+    # ... and with Close in the race: a reader may pin a state over a truncation AND over Close; what it releases last still
+    # has to take the removed segments' files away
+    bc = dict(b, WithCloser=True)
+    for pi, prog in enumerate(([["store", "store", "delh"]], [["store", "store", "delh"], ["store", "delt", "store", "delh"]])[ti]):
+        cs = gen_cover_schedules(prog, bc, [1], stats, (120, 400)[ti], timeout=(200, 900)[ti])
+        for k, (sc, solo) in enumerate(cs):
+            scen.append({"id": "C13c-close-p%d-s%d" % (pi, k), "mode": "forced", "world": "sim", "prog": prog,
+                         "nreaders": 1, "readsEach": 1, "withCloser": True, "withStable": False, "segSize": 60, "sched": sc,
+                         "seed": seed, "solo": solo})
+    for k in range((6, 30)[ti]):
+        n = rng.randint(10, 30)
+        prog = [rng.choice(["store", "store", "delh", "delt"]) for _ in range(n)]
+        scen.append({"id": "C13c-closefree%d" % k, "mode": "free", "world": "sim", "prog": prog, "nreaders": 3, "readsEach": 100,
+                     "withCloser": True, "withStable": False, "segSize": rng.choice([60, 80]), "sched": [], "seed": seed * 79 + k,
+                     "preload": rng.randint(0, 4), "closeAfter": rng.randint(3, n)})
     trace, _, _ = run_conc(scen, wd, "c13")
     vs = [v for v in locate(trace, judge(trace, wd, stats)) if v["clause"] in ("FilesNotReclaimed", "Panic", "Deadlock")]
     byid = {s["id"]: s for s in scen}
